@@ -58,6 +58,8 @@ _get = st.tuples(st.just("get"), st.integers(0, len(CNS) - 1), _sans, st.sampled
 _add = st.tuples(st.just("add"), st.integers(0, len(CUSTOM) - 1),
                  st.lists(st.integers(0, len(EXTRA_NAMES) - 1), max_size=2))
 _again = st.tuples(st.just("again"), st.integers(0, 40))  # repeat the k-th earlier get
+# same CN as the k-th earlier get, other SANs (lookup keys of one request must not influence another one)
+_vary = st.tuples(st.just("vary"), st.integers(0, 40), _sans)
 
 
 def _weighted(*pairs):
@@ -69,7 +71,7 @@ def _weighted(*pairs):
     return st.one_of(out)
 
 
-_op = _weighted((_get, 7), (_again, 4), (_add, 1))
+_op = _weighted((_get, 6), (_again, 3), (_vary, 3), (_add, 2))
 
 
 def strategy(ctx):
@@ -148,7 +150,36 @@ def cert_names(cert):
     return cn, frozenset(names)
 
 
+_limited = False
+
+
+def reset_global_state():
+    """Every case starts from the same global state of the code under test: memoisation caches (functools caches) on
+    CertStore / module-level functions of mitmproxy.certs are cleared if there are any, so that a case never depends on
+    the cases before it and a replay is self-contained.  The address space of the process is capped once, so that
+    runaway memory growth inside a call surfaces as MemoryError (reported) instead of the OOM killer taking the shard."""
+    global _limited
+    from mitmproxy import certs
+    if not _limited:
+        _limited = True
+        try:
+            import resource
+            soft, hard = resource.getrlimit(resource.RLIMIT_AS)
+            cap = 3 * 1024 ** 3
+            if soft == resource.RLIM_INFINITY or soft > cap:
+                resource.setrlimit(resource.RLIMIT_AS, (cap, hard))
+        except Exception:
+            pass
+    for holder in (certs.CertStore, certs):
+        for v in list(vars(holder).values()):
+            f = getattr(v, "__func__", v)
+            clear = getattr(f, "cache_clear", None)
+            if callable(clear):
+                clear()
+
+
 def check_case(case, ctx):
+    reset_global_state()
     from mitmproxy import certs
 
     key, cacert, custom = pki()
@@ -187,6 +218,14 @@ def check_case(case, ctx):
                 if not gets:
                     continue
                 cni, sani, org = gets[op[1] % len(gets)]
+            elif op[0] == "vary":
+                if not gets:
+                    continue
+                cni, _, org = gets[op[1] % len(gets)]
+                sani = list(op[2])
+                if CNS[cni] is None and not sani:
+                    sani = [0]
+                gets.append((cni, sani, org))
             else:
                 cni, sani, org = op[1], list(op[2]), op[3]
                 if CNS[cni] is None and not sani:
